@@ -661,6 +661,43 @@ func c10Failover(c *Ctx) {
 	}
 	cont := len(failStarts) > 0 && reach(fn, failStarts, del, nil)[db.Index]
 	c.Check(cont, r, fname+" failure tries next authority", p.Pos(do.Pos()), "a failed attempt reaches the next attempt while the context is live", "a failed attempt does not lead to the next configured authority")
+	// the only early exit a failed attempt may take is "the caller's context ended"; every
+	// other failure (HTTP error, hang/timeout of this authority, bad reply) must fall through
+	// to the next authority. Cut: new attempts, the ctx-ended edges, and the loop's own
+	// exhaustion exit; any return still reachable is a premature end of the failover.
+	{
+		del3 := map[edge]bool{}
+		for e := range del {
+			del3[e] = true
+		}
+		for _, b := range fn.Blocks {
+			for si, s := range b.Succs {
+				if s == db {
+					del3[edge{b.Index, si}] = true
+				}
+			}
+			if ifi, ok := b.Instrs[len(b.Instrs)-1].(*ssa.If); ok {
+				if bo, ok := ifi.Cond.(*ssa.BinOp); ok && bo.Op == token.LSS {
+					if l, ok := urlArg.(*ssa.UnOp); ok {
+						if ia, ok := l.X.(*ssa.IndexAddr); ok && bo.X == ia.Index {
+							del3[edge{b.Index, 1}] = true // loop exhausted
+						}
+					}
+				}
+			}
+		}
+		pred := map[int]int{}
+		seen := reach(fn, failStarts, del3, pred)
+		bad := false
+		var path []string
+		for _, ret := range returnsOf(fn) {
+			if seen[ret.Block().Index] {
+				bad = true
+				path = p.witness(fn, pred, ret.Block().Index)
+			}
+		}
+		c.Check(!bad, r, fname+" only caller cancellation ends the failover early", p.Pos(do.Pos()), "a failed attempt returns early only when ctx.Err() != nil", "a failed attempt can end the failover for a reason other than the caller's context having ended (e.g. this authority's own timeout): later authorities are never tried", path...)
+	}
 	// returns reachable from failure without another attempt carry a non-nil error
 	into := map[edge]bool{}
 	for _, b := range fn.Blocks {
